@@ -57,7 +57,7 @@ func TestWitness_MultiTypeSubscribeDeadlock(t *testing.T) {
 		t.Skip("development run: finding assumed known, witness not evaluated")
 	}
 	kf.Witness(t, knownDeadlock, func() (bool, string) {
-		attempts := hx.Pick(30000, 60000)
+		attempts := hx.Pick(20000, 60000)
 		for attempt := 0; attempt < attempts; attempt++ {
 			bus := eventbus.NewBus()
 			em, err := bus.Emitter(new(WT0), eventbus.Stateful)
@@ -65,7 +65,7 @@ func TestWitness_MultiTypeSubscribeDeadlock(t *testing.T) {
 				t.Fatal(err)
 			}
 			em.Emit(WT0{})
-			var start atomic.Bool
+			var start, subscribed atomic.Bool
 			var arrived atomic.Int32
 			done := make(chan struct{})
 			go func() {
@@ -74,6 +74,7 @@ func TestWitness_MultiTypeSubscribeDeadlock(t *testing.T) {
 					runtime.Gosched()
 				}
 				sub, err := bus.Subscribe([]any{new(WT0), new(WT1), new(WT2), new(WT3)}, eventbus.BufSize(0))
+				subscribed.Store(true)
 				if err != nil {
 					panic(err)
 				}
@@ -89,7 +90,8 @@ func TestWitness_MultiTypeSubscribeDeadlock(t *testing.T) {
 				for !start.Load() {
 					runtime.Gosched()
 				}
-				for k := 0; k < 40; k++ {
+				// keep taking the bus lock + T0's node lock for as long as Subscribe runs
+				for !subscribed.Load() {
 					e2, err := bus.Emitter(new(WT0), eventbus.Stateful)
 					if err != nil {
 						panic(err)
